@@ -516,4 +516,524 @@ theorem parse_ttTextList (po : C01.ParseOpts) (hesc : po.allowEscapes = true) (h
   rw [e] at this
   exact this
 
+
+
+
+/-! ## the layout tree denotes the exported tree -/
+
+@[simp] theorem ttKV_tRaw (d : Nat) (n : String) (v : Str) : ttKV (tRaw d n v) = kLeaf n v := by
+  simp [tRaw, ttKV, segVal, Piece.val, kLeaf]
+@[simp] theorem ttKV_tEsc (d : Nat) (n : String) (v : Str) : ttKV (tEsc d n v) = kLeaf n v := by
+  simp [tEsc, ttKV, segVal, Piece.val, kLeaf]
+@[simp] theorem ttKV_tInt (d : Nat) (n : String) (i : Int) : ttKV (tInt d n i) = kInt n i := by
+  simp [tInt, kInt]
+@[simp] theorem ttKV_tBool (d : Nat) (n : String) (b : Bool) : ttKV (tBool d n b) = kBool n b := by
+  simp [tBool, kBool]
+@[simp] theorem ttKV_tBlock (d : Nat) (n : String) (kids : List TT) :
+    ttKV (tBlock d n kids) = kBlock n (ttKVList kids) := by
+  simp [tBlock, ttKV, kBlock]
+@[simp] theorem ttKVList_nil : ttKVList [] = [] := rfl
+@[simp] theorem ttKVList_cons (t : TT) (ts : List TT) : ttKVList (t :: ts) = ttKV t :: ttKVList ts := rfl
+@[simp] theorem ttKVList_append (a b : List TT) : ttKVList (a ++ b) = ttKVList a ++ ttKVList b := by
+  induction a with
+  | nil => rfl
+  | cons x xs ih => simp [ih]
+theorem ttKVList_map {α} (f : α → TT) (l : List α) : ttKVList (l.map f) = l.map (fun a => ttKV (f a)) := by
+  induction l with
+  | nil => rfl
+  | cons x xs ih => simp [ih]
+
+mutual
+theorem ttKV_vis (d : Nat) : (v : Vis) → ttKV (ttVis d v) = exportVisAux v
+  | .mk name id color children => by
+    simp only [ttVis, ttKV, exportVisAux, ttKVList_cons, ttKV_tEsc, ttKV_tInt, ttKV_tRaw]
+    rw [ttKV_visList (d + 1) children]
+theorem ttKV_visList (d : Nat) : (vs : List Vis) → ttKVList (ttVisList d vs) = exportVisAux.exportVisList vs
+  | [] => rfl
+  | v :: vs => by
+    simp only [ttVisList, exportVisAux.exportVisList, ttKVList_cons]
+    rw [ttKV_vis d v, ttKV_visList d vs]
+end
+
+theorem ttKV_view (title : String) (v : View) : ttKV (ttView title v) = exportView title v := by
+  cases v with
+  | v3 p a => simp [ttView, exportView]
+  | v2 ax u w z =>
+    simp only [ttView, exportView]
+    by_cases h0 : ax = 0
+    · subst h0; simp
+    · by_cases h1 : ax = 1
+      · subst h1; simp
+      · by_cases h2 : ax = 2
+        · subst h2; simp
+        · simp [h0, h1, h2]
+
+theorem ttKV_views (ts : List String) (vs : List View) : ttKVList (ttViews ts vs) = exportViews ts vs := by
+  induction ts generalizing vs with
+  | nil => cases vs <;> rfl
+  | cons t r ih =>
+    cases vs with
+    | nil => rfl
+    | cons v w => simp [ttViews, exportViews, ttKV_view, ih]
+
+theorem ttKV_rows (d y : Nat) (rows : List (List Str)) : ttKVList (ttRowsFrom d y rows) = rowLeavesFrom y rows := by
+  induction rows generalizing y with
+  | nil => rfl
+  | cons r rs ih => simp [ttRowsFrom, rowLeavesFrom, ttKV, segVal, Piece.val, rowName, ih]
+
+theorem ttKV_rowset (d : Nat) (name : String) (size : Nat) (verts : List DVert) (toks : DVert → List Str) :
+    ttKV (ttRowset d name size verts toks) = kBlock name (rowsetKids size verts toks) := by
+  simp [ttRowset, rowsetKids, rowLeaves, ttKV_rows]
+
+theorem ttKV_disp (d : Nat) (mb : Bool) (dp : Disp) : ttKV (ttDisp d mb dp) = exportDisp mb dp := by
+  simp only [ttDisp, exportDisp, dispKidsOf, dispHead, ttKV_tBlock, ttKVList_append, ttKVList_cons, ttKVList_nil,
+    ttKV_tInt, ttKV_tRaw, ttKV_tBool, ttKV_rowset, triKids, rowLeaves, ttKV_rows]
+  cases mb && hasBlend dp.verts <;> simp [ttKV_rowset]
+
+theorem ttKV_points (d i : Nat) (pts : List V3) : ttKVList (ttPointsFrom d i pts) = pointLeaves i pts := by
+  induction pts generalizing i with
+  | nil => rfl
+  | cons p ps ih => simp [ttPointsFrom, pointLeaves, ih]
+
+theorem ttKV_side (d : Nat) (mb : Bool) (s : Side) : ttKV (ttSide d mb s) = exportSide mb s := by
+  simp only [ttSide, exportSide, ttKV_tBlock, ttKVList_append, ttKVList_cons, ttKVList_nil, ttKV_tInt, ttKV_tRaw,
+    ttKV_tEsc]
+  cases hp : s.points <;> cases hd : s.disp <;>
+    simp [ttKV, ttKV_points, exportPoints, kBlock, lit, ttKV_disp] <;>
+    (split <;> simp [ttKV_disp])
+
+
+theorem ttKV_maybeHidden (d : Nat) (h : Bool) (f : Nat → TT) (k : KV) (hf : ∀ d', ttKV (f d') = k) :
+    ttKV (ttMaybeHidden d h f) = maybeHidden h k := by
+  cases h <;> simp [ttMaybeHidden, maybeHidden, hf]
+
+theorem ttKV_solidEditor (d : Nat) (ig : Bool) (s : Solid) :
+    ttKVList (ttSolidEditor d ig s) = solidEditor ig s := by
+  unfold ttSolidEditor solidEditor
+  cases ig <;> cases s.group <;> cases s.cordon <;> simp [ttKVList_map]
+
+theorem ttKV_solid (d : Nat) (mb ig : Bool) (s : Solid) : ttKV (ttSolid d mb ig s) = exportSolid mb ig s := by
+  unfold ttSolid exportSolid
+  apply ttKV_maybeHidden
+  intro d'
+  simp [ttSolidBlock, solidBlock, ttKVList_map, ttKV_side, ttKV_solidEditor]
+
+theorem ttKV_fix (d : Nat) (f : Fix) : ttKV (ttFix d f) = exportFix f := by
+  simp [ttFix, exportFix, ttKV, segVal, Piece.val]
+
+theorem ttKV_out (d : Nat) (o : Out) : ttKV (ttOut d o) = exportOut o := by
+  simp [ttOut, exportOut, ttKV, segVal, Piece.val]
+
+theorem ttKV_group (d : Nat) (g : Group) : ttKV (ttGroup d g) = exportGroup g := by
+  simp [ttGroup, exportGroup]
+
+theorem ttKV_entEditor (d : Nat) (w : Bool) (e : Ent) : ttKVList (ttEntEditor d w e) = entEditor w e := by
+  unfold ttEntEditor entEditor
+  cases w <;> cases e.comments.isEmpty <;> simp [ttKVList_map]
+
+theorem ttKV_ent (d : Nat) (mb w : Bool) (groups : List Group) (e : Ent) :
+    ttKV (ttEnt d mb w groups e) = exportEnt mb w groups e := by
+  unfold ttEnt exportEnt
+  apply ttKV_maybeHidden
+  intro d'
+  unfold ttEntBlock entBlock ttEntKids entKids
+  cases w <;> cases e.outputs.isEmpty <;>
+    simp [ttKVList_map, ttKV_fix, ttKV_solid, ttKV_out, ttKV_group, ttKV_entEditor, ttKV, segVal, Piece.val]
+
+theorem ttKV_cam (d : Nat) (c : Cam) : ttKV (ttCam d c) = exportCam c := by simp [ttCam, exportCam]
+theorem ttKV_cordon (d : Nat) (c : Cordon) : ttKV (ttCordon d c) = exportCordon c := by
+  simp [ttCordon, exportCordon]
+
+/-- **The layout tree of the text denotes the exported tree.** -/
+theorem ttKV_exportTT (o : ExportOpts) (m : VMap) : ttKVList (exportTT o m) = exportTree o m := by
+  have hvis : ttKVList (ttVisList 1 m.vis) = m.vis.map exportVis := by
+    rw [ttKV_visList]
+    induction m.vis with
+    | nil => rfl
+    | cons v vs ih => simp [exportVisAux.exportVisList, exportVis, ih]
+  have hview : ttKVList (ttViewKids m) = viewKids m := by
+    unfold ttViewKids viewKids
+    cases m.instVis <;> cases m.views <;> simp [ttKV_views]
+  have hcam : ttKVList (ttCamKids m) = camKids m := by
+    simp [ttCamKids, camKids, ttKVList_map, ttKV_cam]
+  have hcord : ttKVList (ttCordonKids m) = cordonKids m := by
+    unfold ttCordonKids cordonKids
+    cases m.cordons.isEmpty <;> simp [ttKVList_map, ttKV_cordon]
+  unfold exportTT exportTree rootOf
+  cases o.minimal <;> cases decide (m.quickhide > 0) <;>
+    simp [ttVerKids, verKids, hvis, hview, hcam, hcord, ttKVList_map, ttKV_ent]
+
+
+
+/-! ## the layout tree of a well-formed map is well-formed text -/
+
+@[simp] theorem plainStr_nil : plainStr [] = true := rfl
+@[simp] theorem plainStr_cons (c : Char) (s : Str) : plainStr (c :: s) = (plainC c && plainStr s) := rfl
+@[simp] theorem plainStr_append (a b : Str) : plainStr (a ++ b) = (plainStr a && plainStr b) := by
+  simp [plainStr, List.all_append]
+
+theorem plainStr_showNat (n : Nat) : plainStr (showNat n) = true := by
+  simp only [plainStr, List.all_eq_true]
+  intro c hc
+  have := showNat_all_digit n
+  simp only [List.all_eq_true] at this
+  have hd := this c hc
+  simp only [Char.isDigit, Bool.and_eq_true, decide_eq_true_eq] at hd
+  simp only [plainC, Bool.not_eq_true', Bool.or_eq_false_iff, beq_eq_false_iff_ne, ne_eq]
+  refine ⟨⟨⟨⟨⟨⟨⟨⟨⟨?_, ?_⟩, ?_⟩, ?_⟩, ?_⟩, ?_⟩, ?_⟩, ?_⟩, ?_⟩, ?_⟩ <;> (intro e; subst e; revert hd; decide)
+
+theorem plainStr_showInt (i : Int) : plainStr (showInt i) = true := by
+  cases i with
+  | ofNat n => exact plainStr_showNat n
+  | negSucc n => simp [showInt, plainStr_showNat]; decide
+
+theorem plainStr_boolStr (b : Bool) : plainStr (boolStr b) = true := by cases b <;> decide
+
+theorem plainStr_pad2 (i : Int) : plainStr (pad2 (showInt i)) = true := by
+  unfold pad2; split <;> simp [plainStr_showInt]; decide
+
+theorem plainStr_unwords (l : List Str) (h : ∀ t ∈ l, plainStr t = true) : plainStr (unwords l) = true := by
+  induction l with
+  | nil => rfl
+  | cons a r ih =>
+    cases r with
+    | nil => simpa [unwords, joinWith] using h a (by simp)
+    | cons b r' =>
+      have := ih (fun t ht => h t (by simp [ht]))
+      simp only [unwords, joinWith, sp, plainStr_append, plainStr_cons, plainStr_nil, Bool.and_true] at this ⊢
+      simp [h a (by simp), this]
+      decide
+
+theorem plainStr_v3 {v : V3} (h : V3OK v = true) : plainStr v.str = true := by
+  obtain ⟨hx, hy, hz⟩ := v3ok_parts h
+  apply plainStr_unwords
+  intro t ht
+  simp only [V3.toks, List.mem_cons, List.mem_nil_iff, or_false] at ht
+  rcases ht with rfl | rfl | rfl <;> exact tok_plain (by assumption)
+
+theorem plainStr_wrap (o c : Char) (s : Str) (ho : plainC o = true) (hc : plainC c = true) (hs : plainStr s = true) :
+    plainStr (wrap o c s) = true := by simp [wrap, ho, hc, hs]
+
+theorem plainStr_uv {a : UV} (h : UVOK a = true) : plainStr a.str = true := by
+  simp only [UVOK, Bool.and_eq_true] at h
+  obtain ⟨⟨⟨⟨hx, hy⟩, hz⟩, ho⟩, hs⟩ := h
+  rw [UV.str_eq]
+  apply plainStr_unwords
+  intro t ht
+  simp only [List.mem_cons, List.mem_nil_iff, or_false] at ht
+  rcases ht with rfl | rfl | rfl | rfl | rfl
+  · simp [tok_plain hx]; decide
+  · exact tok_plain hy
+  · exact tok_plain hz
+  · simp [tok_plain ho]; decide
+  · exact tok_plain hs
+
+/-! ### `ttOK` of the line constructors -/
+
+@[simp] theorem ttOK_tRaw (d : Nat) (n : String) (v : Str) :
+    ttOK (tRaw d n v) = (plainStr n.toList && plainStr v) := by
+  simp [tRaw, ttOK, segOK, pieceOK]
+@[simp] theorem ttOK_tEsc (d : Nat) (n : String) (v : Str) : ttOK (tEsc d n v) = plainStr n.toList := by
+  simp [tEsc, ttOK, segOK, pieceOK]
+@[simp] theorem ttOK_tInt (d : Nat) (n : String) (i : Int) : ttOK (tInt d n i) = plainStr n.toList := by
+  simp [tInt, plainStr_showInt]
+@[simp] theorem ttOK_tBool (d : Nat) (n : String) (b : Bool) : ttOK (tBool d n b) = plainStr n.toList := by
+  simp [tBool, plainStr_boolStr]
+@[simp] theorem ttOK_tBlock (d : Nat) (n : String) (kids : List TT) :
+    ttOK (tBlock d n kids) = (bareName n.toList && ttOKList kids) := by
+  simp [tBlock, ttOK]
+@[simp] theorem ttOKList_nil : ttOKList [] = true := rfl
+@[simp] theorem ttOKList_cons (t : TT) (ts : List TT) : ttOKList (t :: ts) = (ttOK t && ttOKList ts) := rfl
+@[simp] theorem ttOKList_append (a b : List TT) : ttOKList (a ++ b) = (ttOKList a && ttOKList b) := by
+  induction a with
+  | nil => rfl
+  | cons x xs ih => simp [ih, Bool.and_assoc]
+theorem ttOKList_map {α} (f : α → TT) (l : List α) (h : ∀ a ∈ l, ttOK (f a) = true) :
+    ttOKList (l.map f) = true := by
+  induction l with
+  | nil => rfl
+  | cons x xs ih => simp [h x (by simp), ih (fun a ha => h a (by simp [ha]))]
+
+mutual
+theorem ttOK_vis (d : Nat) : (v : Vis) → VisOK v = true → ttOK (ttVis d v) = true
+  | .mk name id color children, h => by
+    simp only [VisOK, Bool.and_eq_true] at h
+    simp only [ttVis, ttOK, Bool.false_eq_true, if_false, ttOKList_cons, ttOK_tEsc, ttOK_tInt, ttOK_tRaw,
+      plainStr_v3 h.1, ttOK_visList (d + 1) children h.2, Bool.and_true]
+    decide
+theorem ttOK_visList (d : Nat) : (vs : List Vis) → VisListOK vs = true → ttOKList (ttVisList d vs) = true
+  | [], _ => rfl
+  | v :: vs, h => by
+    simp only [VisListOK, Bool.and_eq_true] at h
+    simp [ttVisList, ttOK_vis d v h.1, ttOK_visList d vs h.2]
+end
+
+theorem plain_big1 : plainStr (lit "65536") = true := by decide
+theorem plain_big2 : plainStr (lit "-65536") = true := by decide
+
+theorem ttOK_view (title : String) (hb : bareName title.toList = true) (v : View) (h : ViewOK v = true) :
+    ttOK (ttView title v) = true := by
+  cases v with
+  | v3 p a =>
+    simp only [ViewOK, Bool.and_eq_true] at h
+    have w1 := plainStr_wrap '(' ')' p.str (by decide) (by decide) (plainStr_v3 h.1)
+    have w2 := plainStr_wrap '[' ']' a.str (by decide) (by decide) (plainStr_v3 h.2)
+    simp [ttView, hb, w1, w2, plainC]
+  | v2 ax u w z =>
+    simp only [ViewOK, Bool.and_eq_true, decide_eq_true_eq, Bool.not_eq_true'] at h
+    obtain ⟨⟨⟨⟨⟨hax, hu⟩, hw⟩, hz⟩, _⟩, _⟩ := h
+    have pu := tok_plain hu
+    have pw := tok_plain hw
+    have pz := tok_plain hz
+    have p1 : plainStr (wrap '(' ')' (unwords [lit "65536", u, w])) = true :=
+      plainStr_wrap _ _ _ (by decide) (by decide) (plainStr_unwords _ (by
+        intro t ht; simp at ht; rcases ht with rfl | rfl | rfl <;> first | exact plain_big1 | assumption))
+    have p2 : plainStr (wrap '(' ')' (unwords [u, lit "-65536", w])) = true :=
+      plainStr_wrap _ _ _ (by decide) (by decide) (plainStr_unwords _ (by
+        intro t ht; simp at ht; rcases ht with rfl | rfl | rfl <;> first | exact plain_big2 | assumption))
+    have p3 : plainStr (wrap '(' ')' (unwords [u, w, lit "65536"])) = true :=
+      plainStr_wrap _ _ _ (by decide) (by decide) (plainStr_unwords _ (by
+        intro t ht; simp at ht; rcases ht with rfl | rfl | rfl <;> first | exact plain_big1 | assumption))
+    simp only [ttView, ttOK_tBlock, hb, Bool.true_and, ttOKList_append, ttOKList_cons, ttOKList_nil, ttOK_tRaw, pz]
+    have ax3 : ax = 0 ∨ ax = 1 ∨ ax = 2 := by omega
+    rcases ax3 with rfl | rfl | rfl <;> simp [p1, p2, p3, plainC]
+
+
+theorem ttOK_rows (d y : Nat) (rows : List (List Str)) (h : ∀ r ∈ rows, ∀ t ∈ r, plainStr t = true) :
+    ttOKList (ttRowsFrom d y rows) = true := by
+  induction rows generalizing y with
+  | nil => rfl
+  | cons r rs ih =>
+    have hr := plainStr_unwords r (h r (by simp))
+    simp [ttRowsFrom, ttOK, segOK, pieceOK, plainStr_showNat, hr, ih (y + 1) (fun q hq => h q (by simp [hq])), plainC,
+      lit]
+
+theorem rows_plain (size n : Nat) (verts : List DVert) (sel : List DVert → List DVert)
+    (hsel : ∀ r, ∀ v ∈ sel r, v ∈ r) (toks : DVert → List Str)
+    (h : ∀ v ∈ verts, ∀ t ∈ toks v, plainStr t = true) :
+    ∀ r ∈ (rowsOf size n verts).map (fun r => (sel r).flatMap toks), ∀ t ∈ r, plainStr t = true := by
+  intro r hr t ht
+  simp only [List.mem_map] at hr
+  obtain ⟨row, hrow, rfl⟩ := hr
+  simp only [List.mem_flatMap] at ht
+  obtain ⟨v, hv, htv⟩ := ht
+  exact h v (rowsOf_mem size n verts row hrow v (hsel row v hv)) t htv
+
+theorem ttOK_rowset (d : Nat) (name : String) (hb : bareName name.toList = true) (size : Nat) (verts : List DVert)
+    (toks : DVert → List Str) (h : ∀ v ∈ verts, ∀ t ∈ toks v, plainStr t = true) :
+    ttOK (ttRowset d name size verts toks) = true := by
+  simp only [ttRowset, ttOK_tBlock, hb, Bool.true_and]
+  exact ttOK_rows _ _ _ (rows_plain size size verts id (fun _ _ hv => hv) toks h)
+
+theorem plain_v3toks {v : V3} (h : V3OK v = true) : ∀ t ∈ v.toks, plainStr t = true := by
+  obtain ⟨hx, hy, hz⟩ := v3ok_parts h
+  intro t ht
+  simp only [V3.toks, List.mem_cons, List.mem_nil_iff, or_false] at ht
+  rcases ht with rfl | rfl | rfl <;> exact tok_plain (by assumption)
+
+theorem plain_v4toks {v : V4} (h : V4OK v = true) : ∀ t ∈ v.toks, plainStr t = true := by
+  obtain ⟨hx, hy, hz, hw⟩ := v4ok_parts h
+  intro t ht
+  simp only [V4.toks, List.mem_cons, List.mem_nil_iff, or_false] at ht
+  rcases ht with rfl | rfl | rfl | rfl <;> exact tok_plain (by assumption)
+
+theorem ttOK_disp (d : Nat) (mb : Bool) (dp : Disp) (h : DispOK dp = true) : ttOK (ttDisp d mb dp) = true := by
+  simp only [DispOK, Bool.and_eq_true, decide_eq_true_eq, List.all_eq_true] at h
+  obtain ⟨⟨⟨⟨⟨⟨⟨hp1, hp4⟩, hpos⟩, helev⟩, hcoll⟩, hal⟩, hlen⟩, hv⟩ := h
+  have parts : ∀ s ∈ dp.verts, V3OK s.normal = true ∧ TokOK s.dist = true ∧ V3OK s.offset = true ∧
+      V3OK s.offsetNorm = true ∧ TokOK s.alpha = true ∧ V4OK s.blend = true ∧ V4OK s.malpha = true := by
+    intro s hs
+    have := hv s hs
+    simp only [DVertOK, Bool.and_eq_true] at this
+    obtain ⟨⟨⟨⟨⟨⟨⟨⟨⟨a1, a2⟩, a3⟩, a4⟩, a5⟩, _⟩, _⟩, a8⟩, a9⟩, _⟩ := this
+    exact ⟨a1, a2, a3, a4, a5, a8, a9⟩
+  have r1 := ttOK_rowset (d + 2) "normals" (by decide) (dispSize dp.power) dp.verts (·.normal.toks)
+    (fun v hv' => plain_v3toks (parts v hv').1)
+  have r2 := ttOK_rowset (d + 2) "distances" (by decide) (dispSize dp.power) dp.verts (fun v => [v.dist])
+    (fun v hv' t ht => by simp at ht; subst ht; exact tok_plain (parts v hv').2.1)
+  have r3 := ttOK_rowset (d + 2) "offsets" (by decide) (dispSize dp.power) dp.verts (·.offset.toks)
+    (fun v hv' => plain_v3toks (parts v hv').2.2.1)
+  have r4 := ttOK_rowset (d + 2) "offset_normals" (by decide) (dispSize dp.power) dp.verts (·.offsetNorm.toks)
+    (fun v hv' => plain_v3toks (parts v hv').2.2.2.1)
+  have r5 := ttOK_rowset (d + 2) "alphas" (by decide) (dispSize dp.power) dp.verts (fun v => [v.alpha])
+    (fun v hv' t ht => by simp at ht; subst ht; exact tok_plain (parts v hv').2.2.2.2.1)
+  have r6 : ttOKList (ttRowsFrom (d + 2) 0 ((rowsOf (dispSize dp.power) (dispSize dp.power - 1) dp.verts).map
+      fun r => (r.take (dispSize dp.power - 1)).flatMap triToks)) = true :=
+    ttOK_rows _ _ _ (rows_plain _ _ dp.verts (fun r => r.take (dispSize dp.power - 1))
+      (fun _ _ hv' => List.mem_of_mem_take hv') triToks (fun v _ t ht => by
+        simp only [triToks, List.mem_cons, List.mem_nil_iff, or_false] at ht
+        rcases ht with rfl | rfl <;> exact plainStr_showInt _))
+  have r7 : plainStr (unwords (dp.allowed.map showInt)) = true :=
+    plainStr_unwords _ (fun t ht => by
+      simp only [List.mem_map] at ht
+      obtain ⟨i, _, rfl⟩ := ht
+      exact plainStr_showInt i)
+  have m1 := ttOK_rowset (d + 2) "multiblend" (by decide) (dispSize dp.power) dp.verts (·.blend.toks)
+    (fun v hv' => plain_v4toks (parts v hv').2.2.2.2.2.1)
+  have m2 := ttOK_rowset (d + 2) "alphablend" (by decide) (dispSize dp.power) dp.verts (·.malpha.toks)
+    (fun v hv' => plain_v4toks (parts v hv').2.2.2.2.2.2)
+  have mc : ∀ (i : Nat) (name : String), bareName name.toList = true →
+      ttOK (ttRowset (d + 2) name (dispSize dp.power) dp.verts (colorToks i)) = true := by
+    intro i name hb
+    exact ttOK_rowset _ name hb _ _ _ (fun v hv' => by
+      rw [colorToks_eq]; exact plain_v3toks (colorOf_ok i v (hv v hv')))
+  have wpos := plainStr_wrap '[' ']' dp.pos.str (by decide) (by decide) (plainStr_v3 hpos)
+  simp only [ttDisp, ttOK_tBlock, ttOKList_append, ttOKList_cons, ttOKList_nil, ttOK_tInt, ttOK_tRaw, ttOK_tBool,
+    r1, r2, r3, r4, r5, r6, r7, wpos, tok_plain helev]
+  cases mb && hasBlend dp.verts <;>
+    simp [m1, m2, mc 0 "multiblend_color_0" (by decide), mc 1 "multiblend_color_1" (by decide),
+      mc 2 "multiblend_color_2" (by decide), mc 3 "multiblend_color_3" (by decide), plainC, bareName, bareC]
+
+
+theorem ttOK_points (d i : Nat) (pts : List V3) (h : ∀ p ∈ pts, V3OK p = true) :
+    ttOKList (ttPointsFrom d i pts) = true := by
+  induction pts generalizing i with
+  | nil => rfl
+  | cons p ps ih =>
+    simp [ttPointsFrom, plainStr_showNat, plainStr_v3 (h p (by simp)), ih (i + 1) (fun q hq => h q (by simp [hq])),
+      plainC]
+
+theorem ttOK_side (d : Nat) (mb : Bool) (s : Side) (h : SideOK1 s = true) : ttOK (ttSide d mb s) = true := by
+  simp only [SideOK1, Bool.and_eq_true] at h
+  obtain ⟨⟨hc, hp⟩, hd⟩ := h
+  simp only [SideCoreOK, Bool.and_eq_true] at hc
+  obtain ⟨⟨⟨⟨⟨h0, h1⟩, h2⟩, hu⟩, hv⟩, hr⟩ := hc
+  have wplane : plainStr (wrap '(' ')' s.p0.str ++ ' ' :: wrap '(' ')' s.p1.str ++ ' ' :: wrap '(' ')' s.p2.str) = true := by
+    simp [plainStr_wrap _ _ _ (show plainC '(' = true by decide) (show plainC ')' = true by decide) (plainStr_v3 h0),
+      plainStr_wrap _ _ _ (show plainC '(' = true by decide) (show plainC ')' = true by decide) (plainStr_v3 h1),
+      plainStr_wrap _ _ _ (show plainC '(' = true by decide) (show plainC ')' = true by decide) (plainStr_v3 h2), plainC]
+  have w0 := plainStr_wrap '(' ')' s.p0.str (by decide) (by decide) (plainStr_v3 h0)
+  have w1 := plainStr_wrap '(' ')' s.p1.str (by decide) (by decide) (plainStr_v3 h1)
+  have w2 := plainStr_wrap '(' ')' s.p2.str (by decide) (by decide) (plainStr_v3 h2)
+  have hpts : ∀ pts, s.points = some pts →
+      ttOK (TT.block (d + 1) true (lit "point_data") (tInt (d + 2) "numpts" pts.length :: ttPointsFrom (d + 2) 0 pts)) = true := by
+    intro pts e
+    rw [e] at hp
+    simp only [List.all_eq_true] at hp
+    simp [ttOK, ttOK_points _ _ pts hp, plainC, lit]
+  have hdsp : ∀ dp, s.disp = some dp → ttOK (ttDisp d mb dp) = true := by
+    intro dp e
+    rw [e] at hd
+    exact ttOK_disp d mb dp hd
+  unfold ttSide
+  cases hps : s.points with
+  | none =>
+    cases hds : s.disp with
+    | none =>
+      simp [w0, w1, w2, plainStr_uv hu, plainStr_uv hv, tok_plain hr, plainC, bareName, bareC]
+    | some dp =>
+      simp only [ttOK_tBlock, ttOKList_append, ttOKList_cons, ttOKList_nil, ttOK_tInt, ttOK_tRaw, ttOK_tEsc, wplane,
+        plainStr_uv hu, plainStr_uv hv, tok_plain hr]
+      split <;> simp [hdsp _ hds, plainC, bareName, bareC]
+  | some pts =>
+    cases hds : s.disp with
+    | none =>
+      simp [w0, w1, w2, plainStr_uv hu, plainStr_uv hv, tok_plain hr, hpts _ hps, plainC, bareName, bareC]
+    | some dp =>
+      simp only [ttOK_tBlock, ttOKList_append, ttOKList_cons, ttOKList_nil, ttOK_tInt, ttOK_tRaw, ttOK_tEsc, wplane,
+        plainStr_uv hu, plainStr_uv hv, tok_plain hr]
+      split <;> simp [hdsp _ hds, hpts _ hps, plainC, bareName, bareC]
+
+theorem ttOK_maybeHidden (d : Nat) (h : Bool) (f : Nat → TT) (hf : ∀ d', ttOK (f d') = true) :
+    ttOK (ttMaybeHidden d h f) = true := by
+  cases h <;> simp [ttMaybeHidden, hf, bareName, bareC]
+
+theorem ttOK_solid (d : Nat) (mb ig : Bool) (s : Solid) (h : SolidOK1 s = true) : ttOK (ttSolid d mb ig s) = true := by
+  simp only [SolidOK1, Bool.and_eq_true, List.all_eq_true] at h
+  apply ttOK_maybeHidden
+  intro d'
+  have hsides : ttOKList (s.sides.map (ttSide (d' + 1) mb)) = true :=
+    ttOKList_map _ _ (fun sd hsd => ttOK_side _ mb sd (h.1 sd hsd))
+  have hvis : ttOKList ((isort intLe s.visIds).map (tInt (d' + 2) "visgroupid")) = true :=
+    ttOKList_map _ _ (fun _ _ => by simp [plainC])
+  have hed : ttOKList (ttSolidEditor (d' + 2) ig s) = true := by
+    unfold ttSolidEditor
+    cases ig <;> cases s.group <;> cases s.cordon <;> simp [plainStr_v3 h.2, hvis, plainC]
+  simp [ttSolidBlock, hsides, hed, plainC, bareName, bareC]
+
+theorem ttOK_fix (d : Nat) (f : Fix) (h : FixOK f = true) : ttOK (ttFix d f) = true := by
+  simp only [FixOK, Bool.and_eq_true] at h
+  simp [ttFix, ttOK, segOK, pieceOK, plainStr_pad2, h.2, plainC, lit]
+
+theorem plainC_sep (b : Bool) : plainC (outSep b) = true := by cases b <;> decide
+
+theorem ttOK_out (d : Nat) (o : Out) (h : OutOK o = true) : ttOK (ttOut d o) = true := by
+  simp only [OutOK, Bool.and_eq_true] at h
+  have hd := tok_plain h.1.1.2
+  simp [ttOut, ttOK, segOK, pieceOK, plainC_sep, hd, plainStr_showInt]
+
+theorem ttOK_group (d : Nat) (g : Group) (h : GroupOK g = true) : ttOK (ttGroup d g) = true := by
+  simp only [GroupOK] at h
+  simp [ttGroup, plainStr_v3 h, plainC, bareName, bareC]
+
+theorem ttOK_ent (d : Nat) (mb w : Bool) (groups : List Group) (e : Ent) (h : EntOK1 e)
+    (hg : ∀ g ∈ groups, GroupOK g = true) : ttOK (ttEnt d mb w groups e) = true := by
+  apply ttOK_maybeHidden
+  intro d'
+  have hkeys : ttOKList ((isort keyLe e.keys).map (fun kv => TT.leaf (d' + 1) [.esc false kv.1] [.esc false kv.2])) = true :=
+    ttOKList_map _ _ (fun _ _ => by simp [ttOK, segOK, pieceOK])
+  have hfix : ttOKList ((isort fixLe e.fixup).map (ttFix (d' + 1))) = true :=
+    ttOKList_map _ _ (fun f hf => ttOK_fix _ f (h.fixes f ((mem_isort _ _ _).mp hf)))
+  have hsol : ttOKList (e.solids.map (ttSolid (d' + 1) mb w)) = true :=
+    ttOKList_map _ _ (fun s hs => ttOK_solid _ mb w s (h.solids s hs))
+  have hout : ttOKList (e.outputs.map (ttOut (d' + 1 + 1))) = true :=
+    ttOKList_map _ _ (fun o ho => ttOK_out _ o (h.outs o ho))
+  have hgrp : ttOKList (groups.map (ttGroup (d' + 1))) = true :=
+    ttOKList_map _ _ (fun g hg' => ttOK_group _ g (hg g hg'))
+  have hed : ttOKList (ttEntEditor (d' + 1 + 1) w e) = true := by
+    unfold ttEntEditor
+    have h1 : ttOKList ((isort intLe e.groups).map (tInt (d' + 1 + 1) "groupid")) = true :=
+      ttOKList_map _ _ (fun _ _ => by simp [plainC])
+    have h2 : ttOKList ((isort intLe e.visIds).map (tInt (d' + 1 + 1) "visgroupid")) = true :=
+      ttOKList_map _ _ (fun _ _ => by simp [plainC])
+    cases w <;> cases e.comments.isEmpty <;> simp [plainStr_v3 h.color, h1, h2, plainC]
+  unfold ttEntBlock ttEntKids
+  cases w <;> cases e.outputs.isEmpty <;>
+    simp [hkeys, hfix, hsol, hout, hgrp, hed, plainC, bareName, bareC]
+
+theorem ttOK_cam (d : Nat) (c : Cam) (h : CamOK c = true) : ttOK (ttCam d c) = true := by
+  simp only [CamOK, Bool.and_eq_true] at h
+  simp [ttCam, plainStr_wrap _ _ _ (show plainC '[' = true by decide) (show plainC ']' = true by decide) (plainStr_v3 h.1),
+    plainStr_wrap _ _ _ (show plainC '[' = true by decide) (show plainC ']' = true by decide) (plainStr_v3 h.2),
+    plainC, bareName, bareC]
+
+theorem ttOK_cordon (d : Nat) (c : Cordon) (h : CordonOK c = true) : ttOK (ttCordon d c) = true := by
+  simp only [CordonOK, Bool.and_eq_true] at h
+  simp [ttCordon, plainStr_wrap _ _ _ (show plainC '(' = true by decide) (show plainC ')' = true by decide) (plainStr_v3 h.1),
+    plainStr_wrap _ _ _ (show plainC '(' = true by decide) (show plainC ')' = true by decide) (plainStr_v3 h.2),
+    plainC, bareName, bareC]
+
+/-- **The text of a well-formed map is well-formed**: every field written without escaping is
+plain, every unquoted block header an identifier. -/
+theorem ttOK_exportTT (o : ExportOpts) (m : VMap) (h : MapOK1 m) : ttOKList (exportTT o m) = true := by
+  have hvis := ttOK_visList 1 m.vis h.vis
+  have hview : ttOKList (ttViewKids m) = true := by
+    unfold ttViewKids
+    cases hiv : m.instVis <;> cases hvv : m.views
+    · simp [plainC]
+    · have := h.views
+      rw [hvv] at this
+      obtain ⟨a, b, c, d, rfl, ha, hb, hc, hd⟩ := this
+      simp [ttViews, viewTitles, ttOK_view "v0" (by decide) a ha, ttOK_view "v1" (by decide) b hb,
+        ttOK_view "v2" (by decide) c hc, ttOK_view "v3" (by decide) d hd, plainC, bareName, bareC]
+    · simp [plainC]
+    · have := h.views
+      rw [hvv] at this
+      obtain ⟨a, b, c, d, rfl, ha, hb, hc, hd⟩ := this
+      simp [ttViews, viewTitles, ttOK_view "v0" (by decide) a ha, ttOK_view "v1" (by decide) b hb,
+        ttOK_view "v2" (by decide) c hc, ttOK_view "v3" (by decide) d hd, plainC, bareName, bareC]
+  have hcam : ttOKList (ttCamKids m) = true := by
+    simp [ttCamKids, ttOKList_map _ _ (fun c hc => ttOK_cam 1 c (h.cams c hc)), plainC]
+  have hcord : ttOKList (ttCordonKids m) = true := by
+    unfold ttCordonKids
+    cases m.cordons.isEmpty <;>
+      simp [ttOKList_map _ _ (fun c hc => ttOK_cordon 1 c (h.cordons c hc)), plainC]
+  have hworld := ttOK_ent 0 o.multiblend true m.groups (spawnForExport o m) (entOK1_spawnForExport o m h.spawn) h.groups
+  have hents : ttOKList (m.ents.map (ttEnt 0 o.multiblend false [])) = true :=
+    ttOKList_map _ _ (fun e he => ttOK_ent 0 _ false [] e (h.ents e he) (by simp))
+  unfold exportTT
+  cases o.minimal <;> cases decide (m.quickhide > 0) <;>
+    simp [ttVerKids, hvis, hview, hcam, hcord, hworld, hents, plainC, bareName, bareC]
+
+
 end C06
